@@ -211,7 +211,7 @@ C12_ROLES = [':ARG0', ':ARG1', ':ARG2', ':mod', ':domain', ':op1', ':polarity', 
 
 
 @st.composite
-def _cases(draw):
+def _cases(draw, large=False):
     c = draw(st.integers(0, 9))
     if c <= 5:
         spec = {'name': draw(st.sampled_from(['amr', 'amr', 'amr', 'mini']))}
@@ -239,7 +239,7 @@ def _cases(draw):
     if draw(st.integers(0, 6)) == 0:
         g = draw(graphs.wf_graphs(spec, max_vars=4, role_pool=(fwd, inv), concepts=[c for c in concepts if not c.startswith('"')] + [None]))
         return {'src': 'built', 'g': g, 'model': spec, 'program': prog}
-    j = draw(trees.wf_trees(spec, max_nodes=6, role_pool=(fwd, inv), concepts=concepts, emptyconcept=False))
+    j = draw(trees.wf_trees(spec, max_nodes=30 if large else 6, role_pool=(fwd, inv), concepts=concepts, emptyconcept=False, wide=8 if large else 3))
     if table['reifications'] and draw(st.booleans()):
         j = trees.reify_in_tree(draw, j, table, prob=(1, 3))     # collapsible reified nodes written in the text
     case = {'src': 'tree', 'tree': j, 'model': spec, 'program': prog, 'strip': draw(st.integers(0, 3)) == 0}
@@ -252,4 +252,4 @@ def _cases(draw):
 
 
 def stages(tier):
-    return [Hyp('programs', _cases, 5000, 200000)]
+    return [Hyp('programs', _cases, 5000, 200000), Hyp('programs-large', lambda: _cases(large=True), 200, 10000)]
